@@ -117,9 +117,15 @@ def kwargs_for(fn, opt):
 POSITIONAL = {"sort", "srcidx"}  # these option sets are passed BY POSITION (documented parameter order)
 
 
+PASSED_OPTIONS = []   # (the mapping handed to the library, a copy taken before the call) of the last call
+
+
 def call(obj_or_cls, name, payload, opt):
     """Invoke one entry point, by keyword or - for two option sets - by position."""
     kw = kwargs_for(name, opt)
+    PASSED_OPTIONS.clear()
+    if "serialization_options" in kw:
+        PASSED_OPTIONS.append((kw["serialization_options"], dict(kw["serialization_options"])))
     f = getattr(obj_or_cls, name)
     args = [] if payload is None else [payload]
     if opt in POSITIONAL and "serialization_options" in kw:
@@ -265,6 +271,15 @@ def walk_check(x, opt, errs, is_node_level=True):
             walk_check(v, opt, errs)
 
 
+def _options_untouched(rec, case, name):
+    """The options mapping belongs to the caller: the call must leave it as it was (callers keep one mapping and pass it to
+    many calls)."""
+    for passed, before in PASSED_OPTIONS:
+        if passed != before:
+            rec.violation("C16|options-mapping-modified", case, f"{name}: the options mapping handed in was changed by the call: {before} -> {passed}")
+    PASSED_OPTIONS.clear()
+
+
 def execute(rec, clean, inst, root, seqname):
     name, kind, (fmt, opt, fault) = inst
     rec.count("transitions")
@@ -281,6 +296,7 @@ def execute(rec, clean, inst, root, seqname):
             res, raised = None, f"{type(e).__name__}: {str(e)[:150]}"
         finally:
             ARMED[0] = None
+        _options_untouched(rec, case, name)
         if fault is not None and raised is None:
             rec.violation("C16|harness|fault-not-hit", case, "the injected serialization fault did not fire")
         if fault is None and raised is not None:
@@ -328,6 +344,7 @@ def execute(rec, clean, inst, root, seqname):
             raised = None
         except Exception as e:  # noqa: BLE001
             raised = type(e).__name__
+        _options_untouched(rec, case, name)
         rec.outcome(f"des:{'raised' if raised else 'ok'}")
         # results of deserialization are C04's business; here only the aftermath counts - except for the one option whose
         # effect IS the result: a dialect given to the call must reach every nested object, tagged or not
